@@ -111,6 +111,12 @@ func runClosingCase(ts *rig.TestServer, cfg config, c closingCase) {
 		}
 	}
 	r1, err := a.ReadResponse(respTimeout)
+	if err != nil && rig.IsClosedErr(err) && c.Second == "TEARDOWN" && target != a {
+		// two TEARDOWNs of one session race on two connections: the one handled first ends the
+		// session, which closes every connection attached to it - the other request may never be read
+		run.Count("closing-session/connection-closed-by-the-other-teardown", 1)
+		return
+	}
 	if err != nil || len(r1.Header["CSeq"]) != 1 || r1.Header["CSeq"][0] != td.Header["CSeq"][0] {
 		run.Violation("closing-session/teardown-not-answered", fmt.Sprintf("TEARDOWN of a session with %d further connections: %v %v", c.Extra, err, r1), c)
 		return
